@@ -114,6 +114,19 @@ func scenAPI(rep *Report, tier string, seed int64) {
 		{"get-bank", func(h uint32) interface{} { return map[string]interface{}{"height": h} }},
 	}
 	workers := 6
+	// the first blocks are synced without any request, so that the sync loop's averaging cache
+	// already exists when the first handler runs (a handler that copied or captured the node's
+	// state at first use would otherwise start from an empty one)
+	warm := uint32(10)
+	for h := uint32(1); h <= warm; h++ {
+		if synced, msg := d.StepTo(h); synced < int64(h) {
+			rep.Violate("api:sync-stuck-or-crashed", fmt.Sprintf("height %d before any API request: %s", h, msg), "")
+			close(stop)
+			d.Stop()
+			return
+		}
+		rep.Traces++
+	}
 	for wkr := 0; wkr < workers; wkr++ {
 		wg.Add(1)
 		go func(id int) {
@@ -147,7 +160,7 @@ func scenAPI(rep *Report, tier string, seed int64) {
 		}(wkr)
 	}
 	stuck := ""
-	for h := uint32(1); h <= length; h++ {
+	for h := warm + 1; h <= length; h++ {
 		synced, msg := d.StepTo(h)
 		rep.Traces++
 		if synced < int64(h) {
